@@ -8,6 +8,8 @@ def receiveN : List (List (Nat × Nat)) :=
    [(0, 0), (1, 1), (2, 2), (3, 3), (4, 4)]]
 def maxSelectNum : Nat := 5
 def copyFacts : CopyFacts := { fillOnce := true, closeIncr := true, closeAtLen := true }
+/-- end-of-stream tests on the receive paths compare with the sentinel by identity -/
+def eofByIdentity : Bool := true
 def facts : Facts := { copy := copyFacts, tbl := receiveN, maxSel := maxSelectNum, fwdCloses := true }
 
 end EinoV.Expected.C08
